@@ -16,6 +16,7 @@ import (
 	"github.com/mattn/anko/ast"
 	"github.com/mattn/anko/env"
 	_ "github.com/mattn/anko/packages"
+	"github.com/mattn/anko/parser"
 	"github.com/mattn/anko/vm"
 )
 
@@ -435,4 +436,35 @@ func PackagesDigest() uint64 {
 		}
 	}
 	return h.Sum64()
+}
+
+// RunSrc parses and runs src in a fresh environment (with the host probes); grab receives that environment.
+func RunSrc(grab func(e *env.Env), src string) (Obs, error) {
+	var o Obs
+	if src == "" {
+		src = "nil"
+	}
+	stmt, err := parser.ParseSrc(src)
+	if err != nil {
+		return Obs{Cls: "parse", V: V{T: "err", S: err.Error(), L: []V{}}, Top: map[string]V{}}, err
+	}
+	o, _ = Run(context.Background(), stmt, func(e *env.Env) { grab(e) })
+	return o, nil
+}
+
+// RunIn parses and runs src in the given environment; only class and value are observed.
+func RunIn(e *env.Env, src string) Obs {
+	o := Obs{Top: map[string]V{}, Log: []V{}}
+	stmt, err := parser.ParseSrc(src)
+	if err != nil {
+		o.Cls, o.V = "parse", V{T: "err", S: err.Error(), L: []V{}}
+		return o
+	}
+	res, err := runRecover(context.Background(), e, stmt)
+	if err != nil {
+		o.Cls, o.V = "err", V{T: "err", S: err.Error(), L: []V{}}
+		return o
+	}
+	o.Cls, o.V = "ok", Proj(res)
+	return o
 }
